@@ -22,3 +22,15 @@ func CheckSlotSpan(slotAfter func(delta time.Duration) common.Slot, slot common.
 	}
 	return nil
 }
+
+// syncCommitteeForSlot returns the sync committee that signs at the given slot, as in the spec's
+// compute_subnets_for_sync_committee / get_sync_subcommittee_pubkeys: signatures made at slot are included at
+// slot+1, so at the last slot of a sync committee period the next sync committee is in charge.
+// The epochs context must be that of the slot.
+func syncCommitteeForSlot(spec *common.Spec, epc *common.EpochsContext, slot common.Slot) *common.IndexedSyncCommittee {
+	period := spec.EPOCHS_PER_SYNC_COMMITTEE_PERIOD
+	if spec.SlotToEpoch(slot)/period == spec.SlotToEpoch(slot+1)/period {
+		return epc.CurrentSyncCommittee
+	}
+	return epc.NextSyncCommittee
+}
